@@ -63,7 +63,8 @@ where
         where
             A: serde::de::SeqAccess<'d>,
         {
-            let mut array = Vec::with_capacity(seq.size_hint().unwrap_or_default());
+            // The hint is the declared length, not what the input holds: cap the reservation.
+            let mut array = Vec::with_capacity(seq.size_hint().unwrap_or_default().min(1024));
             while let Some(elem) = seq.next_element::<PossiblyUnknown<T>>()? {
                 if let PossiblyUnknown::Some(elem) = elem {
                     array.push(elem)
